@@ -124,6 +124,7 @@ def stepCodec (s : CState) (toks : List String) : Option (CState × String) :=
     some (s', s'.dumpS (nat! j))
   | ["ISMSG", h] => some (s, s!"{isMessage (hex! h)}")
   | ["RESET", i] => let m := (s.get (nat! i)).reset; some ((s.set (nat! i) m).setStale (nat! i) false, dump m)
+  | ["SETLEN", i, n] => some (s.set (nat! i) { s.get (nat! i) with length := nat! n }, "ok")
   | ["WHDR", i] => let m := (s.get (nat! i)).writeHeader; let s' := s.set (nat! i) m; some (s', s'.dumpS (nat! i))
   | ["WLEN", i] => let m := (s.get (nat! i)).writeLength; let s' := s.set (nat! i) m; some (s', s'.dumpS (nat! i))
   | ["WTYPE", i] => let m := (s.get (nat! i)).writeType; let s' := s.set (nat! i) m; some (s', s'.dumpS (nat! i))
